@@ -82,3 +82,25 @@ Example C05_history_example :
   render [] (reg_lookup []) 10 8 t_quotes ctx_new (wr_new None 0) =
   render [] (reg_lookup []) 10 8 t_quotes (clear_log (ctx_reset (clear_log ctx_new))) (wr_new None 0).
 Proof. exact history_reset_example. Qed.
+
+(* ---- histories with renders through a failing writer (HRenderF) ----
+   The theorems above ([final_ctx], [check_history]) quantify over histories that contain such steps
+   too: whatever a faulted render left behind, the steps after a Reset are judged exactly as on a
+   new context (C05_history_after_reset, C05_context_after_reset_is_new).  The Reset itself: *)
+Theorem C05_reset_after_failed_render : forall c,
+  dfr (ctx_reset (clear_log c)) = [] /\ ipv (ctx_reset (clear_log c)) = [] /\
+  rev (elog (ctx_reset (clear_log c))) = map EvRelease (ipv c) /\
+  clear_log (ctx_reset (clear_log c)) = ctx_new.
+Proof. exact reset_after_failed_render. Qed.
+Print Assumptions C05_reset_after_failed_render.
+
+Example C05_history_fault_example :
+  check_history hc_ex steps_fault ctx_new = [HOk; HOk; HOk; HOk; HOk] /\
+  (match final_ctx hc_ex (firstn 2 steps_fault) ctx_new with
+   | Some c => dfr c = [Bs "d1"%string] /\ ipv c = [Bs "p1"%string] /\
+               forallb (fun ev => match ev with EvRun _ _ => false | _ => true end) (elog c) = true
+   | None => False
+   end) /\
+  hist_pools hc_ex (firstn 2 steps_fault) ctx_new = [Bs "p1"%string] /\
+  final_ctx hc_ex (firstn 3 steps_fault) ctx_new = Some ctx_new.
+Proof. exact history_fault_example. Qed.
